@@ -175,15 +175,18 @@ PROPS = {
     "C01": P("C01", "(a) no panic site reachable from any add/sub/neg form, operator shape or Sum (R-TOTAL); (b) every "
              "returned value is canonical on every path in every non-aligned configuration (R-CANON typestate); (c) the "
              "carry/borrow of each carrying_add/borrowing_sub and the `> MASK` comparison both reach the returned flag, no "
-             "overflow indicator is dropped (R-FLAG); (d) each checked_/saturating_/wrapping_/overflowing_ variant reaches "
-             "the kernel of its own operation only and saturates to the right bound (R-VARIANT)",
+             "overflow indicator is dropped (R-FLAG); the indicator of overflowing_add/sub/neg can be false for BITS == 0 "
+             "and is not provably constant for BITS > 0 (R-FLAG/flag-range, interval interpretation with summaries of the "
+             "pairs callees return); (d) each checked_/saturating_/wrapping_ variant delegates to the overflowing_ root of "
+             "its family or shares an arithmetic kernel with it, and saturates to the right bound (R-VARIANT)",
              "that the limb-wise carry chain computes the sum (e.g. seeded C01-carrying_add-compare is missed)",
              rules_with_canon("C01", {"src/add.rs"}, flag_for({"src/add.rs"}, ["add", "sub", "neg"])),
              ["that the limb-wise carry chain computes the sum/difference", "abs_diff's value"]),
     "C02": P("C02", "(a) no undischarged panic site under any mul form, inv_ring, Product (R-TOTAL; widening_mul's two "
              "assert_eq! are documented); (b) results canonical on every path, incl. inv_ring for single-limb widths "
              "(R-CANON); (c) addmul's return and the `> MASK` comparison reach overflowing_mul's flag, addmul's own "
-             "carries reach its overflow (R-FLAG); (d) variants reach the mul kernels only (R-VARIANT)",
+             "carries reach its overflow (R-FLAG), the indicator is not constant where it must vary (R-FLAG/flag-range); (d) "
+             "variants delegate to overflowing_mul or share its kernels (R-VARIANT)",
              "products, addmul's truncation bookkeeping (seeded C02-addmul-truncated-row-flag is missed), Hensel lifting",
              rules_with_canon("C02", {"src/mul.rs"}, flag_for({"src/mul.rs", "src/algorithms/mul.rs"}, ["mul"])),
              ["products", "trimming / truncation bookkeeping in addmul", "Hensel lifting"]),
@@ -215,7 +218,8 @@ PROPS = {
              "relational interval facts); (b) results canonical (R-CANON); (c) the flag of overflowing_shl depends on a "
              "comparison with MASK and, for both directions, on reads of self outside the shifted window (R-FLAG mask-/"
              "window-discard); (d) a Uint-typed shift amount is never used through its low limb without a whole-value "
-             "check (R-LOWLIMB); (e) variants reach overflowing_shl resp. overflowing_shr only (R-VARIANT)",
+             "check (R-LOWLIMB); (e) variants delegate to overflowing_shl resp. overflowing_shr (R-VARIANT), whose "
+             "indicators can be false for BITS == 0 and are not constant otherwise (R-FLAG/flag-range)",
              "bit positions, rotation arithmetic, sign fill; exactness of the flag beyond the structural clauses (seeded "
              "C05-shr-flag-trailing_zeros is missed)", rules_C05,
              ["bit positions", "rotation arithmetic", "sign fill", "exactness of the lost-bit flag"]),
@@ -228,7 +232,10 @@ PROPS = {
     "C07": P("C07", "(a) every TryFrom/wrapping/saturating conversion in either direction and the *_from_limbs_slice "
              "constructors reach no undischarged panic site: each asserting from_limbs is behind a top-limb bound "
              "(R-TOTAL, callee-guard refutation); (b) MASK is never an operand of % / + - * (R-MASKKIND); (c) low-limb "
-             "reads of a Uint are dominated by a bit_len check (R-LOWLIMB); (d) wrapping_to/saturating_to project the "
+             "reads of a Uint that reach a success value are dominated by a whole-value observer (R-LOWLIMB), and on every "
+             "success path of the 26 Uint->primitive conversions each narrowing cast / left shift is value preserving for "
+             "the limb interval the dominating checks leave -- bit_len / leading_zeros bounds, direct limb comparisons and "
+             "exact cast round-trip fixed points are understood (R-CASTFIT); (d) wrapping_to/saturating_to project the "
              "wrapped resp. maximum payload, saturating_from maps error kinds to MAX/ZERO (R-VARIANT); (e) TryFrom<u64> "
              "errs exactly on `value > MASK` under LIMBS <= 1, signed conversions produce ValueNegative exactly on "
              "is_negative (R-GUARD); (f) the slice constructor can report overflow in every configuration incl. BITS = 0 "
@@ -236,7 +243,9 @@ PROPS = {
     "C08": P("C08", "(a) try_from_{be,le}_slice, checked_copy_* and the slice/vec byte forms reach no undischarged panic "
              "site in any configuration, the asserting from_limbs only behind a top-limb check (R-TOTAL); (b) byte-form "
              "writers keep values canonical (R-CANON); (c) checked_copy_* touch the buffer only behind the length guard "
-             "(R-GUARD/buffers); (d) the slice parsers can fail in every configuration (R-FLAG/feasible-failure)",
+             "(R-GUARD/buffers); (d) the slice parsers can fail in every configuration (R-FLAG/feasible-failure); (e) in a "
+             "build with arithmetic overflow checks (debug) no byte-form entry reaches an undischarged overflow assertion "
+             "(R-TOTAL/overflow-checks on the -C overflow-checks=on MIR, 5 reviewed rows)",
              "digit order inside the loops, trimmed lengths (seeded C08-trimmed-length-arithmetic is reported only "
              "incidentally), round trip", rules_C08, ["digit order inside the loops", "trimmed lengths", "round trip"]),
     "C09": P("C09", "(a) the char->digit map of from_str_radix equals the documented alphabets on every cell of the "
@@ -244,23 +253,28 @@ PROPS = {
              "resp. [0,64); prefix table {0x,0X,0o,0O,0b,0B} and formatter PREFIX/MAX/WIDTH constants agree (R-TABLE); "
              "(b) parsers and formatters reach no undischarged panic site (R-TOTAL); (c) from_base_* keep the carry and the "
              "`> MASK` test in the Overflow path and return canonical values (R-FLAG, R-CANON), and can fail in every "
-             "configuration", "Horner/spigot arithmetic, padding and alignment output", rules_C09,
+             "configuration; (d) no parser/formatter entry reaches an arithmetic-overflow assertion in overflow-checked "
+             "builds (R-TOTAL/overflow-checks, all discharged by intervals)", "Horner/spigot arithmetic, padding and alignment output", rules_C09,
              ["Horner/spigot arithmetic", "padding and alignment output"]),
     "C10": P("C10", "(a) reduce_mod/mul_mod/pow_mod return ZERO on the zero-modulus edge and reach the division kernel "
-             "only behind it (R-GUARD/zero-divisor, R-TOTAL D-zero); (b) add_mod uses the overflow indicator (R-FLAG); "
+             "only behind it (R-GUARD/zero-divisor, R-TOTAL D-zero: the non-zero test must dominate the use with no write "
+             "to the divisor in between); (b) add_mod uses the overflow indicator (R-FLAG); "
              "(c) results canonical with reviewed rows for the kernel post-conditions (R-CANON)",
              "residues, pow_mod's exponent loop (seeded C10-pow_mod-skips-zero-limbs is missed), inv_mod cofactor sign",
              rules_C10, ["residues", "pow_mod", "inv_mod cofactor sign"]),
     "C13": P("C13", "(a) checked_log/checked_log2/checked_log10/checked_pow and the pow family reach no undischarged "
              "panic site at any width, including BITS < 4 where the constants 2 and 10 do not fit (R-TOTAL with D-lit and "
              "return-discriminant summaries; log's documented preconditions are exported as predicates and verified at "
-             "checked_log's call); (b) both overflowing_mul indicators of overflowing_pow reach its flag (R-FLAG); (c) pow "
-             "variants reach the mul kernels, saturating_pow -> MAX (R-VARIANT)",
+             "checked_log's call); (b) both overflowing_mul indicators of overflowing_pow reach its flag (R-FLAG), which is "
+             "not constant where it must vary (R-FLAG/flag-range); (c) pow variants delegate to overflowing_pow or share "
+             "its kernels, saturating_pow -> MAX (R-VARIANT)",
              "values, the square-and-multiply loop (seeded C13-pow-limbwise-exponent is missed), termination of root, float "
              "estimates inside log (trusted rows)", rules_C13, ["values", "termination of root", "float estimates inside log"]),
     "C16": P("C16", "(a) per integration (13 encoder/decoder pairs) both sides use Uint byte-form functions of the byte "
              "order the format defines and agree; SSZ length reporters evaluate to BYTES in every configuration; postgres "
-             "accepts/to_sql/from_sql handle the same 17 column types (R-CODEC); (b) concrete pairs in Pod/ark/primitive-"
+             "accepts/to_sql/from_sql handle the same 17 column types (R-CODEC); in each of the six SCALE compact modes "
+             "the value range the encoder emits is contained in the range the decoder accepts (R-CODEC/compact-modes: "
+             "intervals of bit_len per encoder arm vs intervals of the decoded integer per decoder arm); (b) concrete pairs in Pod/ark/primitive-"
              "types impls are well-formed (R-WF); (c) encoders and length/size-hint functions reach no undischarged panic "
              "site (R-TOTAL)", "round trip, byte-exact reference encodings (seeded C16-postgres-numeric-weight is missed), "
              "size-hint arithmetic (F16)", rules_C16,
@@ -271,18 +285,23 @@ PROPS = {
              "panic-site inventory of the call-graph closure, discharge by interval abstract interpretation, guard "
              "refutation across calls and 25 reviewed rows (R-TOTAL); (b) each canonical decoder constructs its documented "
              "error kinds, and in the three RLP decoders every path to try_from_be_slice passes the leading-zero test "
-             "(R-GUARD/decoders)", "that the returned value is the one the input denotes; termination; debug-only "
-             "arithmetic overflow", rules_C17,
-             ["that the returned value is the one the input denotes", "termination", "debug-only arithmetic overflow"]),
+             "(R-GUARD/decoders); (c) in a build with arithmetic overflow checks (every debug build) no decoder entry "
+             "reaches an undischarged `attempt to <op> with overflow` assertion outside the kernels (R-TOTAL/overflow-"
+             "checks on the -C overflow-checks=on MIR: ~880 assertions discharged by intervals, 5 reviewed rows)",
+             "that the returned value is the one the input denotes; termination", rules_C17,
+             ["that the returned value is the one the input denotes", "termination",
+              "overflow assertions inside src/algorithms (kernel value contracts)"]),
     "C18": P("C18", "(a) float->Uint: the value reaches to_bits through no rounding float operation; NotANumber exactly "
              "on the is_nan edge which dominates every float comparison; ValueNegative exactly under value < 0.0; f32 "
-             "forwards through the exact widening cast (R-FLOAT); (b) Uint->float is one multiplication of the cast "
-             "mantissa by a factor derived from the exponent only; (c) no undischarged panic site (R-TOTAL)",
+             "forwards through the exact widening cast (R-FLOAT); (b) Uint->float has at most one inexact step on the path "
+             "to its result (rounding int->float cast, narrowing float cast, float + - /, * by anything but an exponent-"
+             "only factor, nested conversion): no double rounding; (c) no undischarged panic site (R-TOTAL)",
              "rounding direction, the value of the power-of-two factor (seeded C18-exp2-bit-pattern is missed), neighbour/"
              "monotonicity", rules_C18, ["rounding direction", "neighbour/monotonicity of Uint->float"]),
     "C19": P("C19", "(a) a generated grid of uint! witness programs builds or is rejected as the property demands: 2^bits "
              "rejected / 2^bits-1 accepted for nine widths and both suffixes and on the multi-limb boundary for every "
-             "base, invalid digits incl. a digit equal to the base, pass-through of ordinary and hex-ending-in-B literals, "
+             "base, invalid digits incl. a digit equal to the base, pass-through of ordinary literals and of a 36-literal "
+             "0x<pre>B<digits> grid (type ascription + const value assertion), "
              "nesting, and compile-time limb assertions for 4 bases x 8 widths x ~9 values, each failing witness with a "
              "compiling twin (R-WITNESS); (b) on the macro's MIR: the digit range check rejects digit == base, every Err "
              "reaches compile_error!, Ok(None) returns the literal, groups recurse, pad_limbs keeps the length and mask "
@@ -292,7 +311,8 @@ PROPS = {
     "C20": P("C20", "(a) each of 291 facade functions (operator impls in all shapes, Bits wrapper, num-traits, "
              "num-integer, Sum/Product, Zeroize) forwards to the delegate the oracle table names: resolved delegate "
              "identity, argument provenance parameter i -> argument i (commutative swaps allowed only for commutative "
-             "operations), no self-recursion, result returned through wrappers only (R-FACADE); (b) subtle ct_gt/ct_lt/"
+             "operations), no self-recursion, result returned through wrappers only; a composite facade re-implemented on "
+             "limbs must be total and canonical like the composition it replaces (R-FACADE); (b) subtle ct_gt/ct_lt/"
              "ct_eq/conditional_select use the primitive of their own direction on limbs zipped from (self, rhs) in that "
              "order (R-SIBLING); (c) no facade has a panic source of its own beyond reviewed rows where its signature "
              "cannot express the failure (R-TOTAL, own sites)", "that the inherent method is right; constant-time-ness",
